@@ -280,7 +280,9 @@ def run_scripted(case):
     # the lines the canonical run never delivered (after close / authentication) are cut off
     used = len(transcript)
     c2 = dict(case)
-    c2['seq'] = case['seq'][:used]
+    # lines after the one that closed the connection may arrive in the same read: they must be disregarded;
+    # only after a completed handshake is the rest binary, so the sequence is cut there
+    c2['seq'] = case['seq'][:used] if st.authed else list(case['seq'])
     try:
         s2 = _split_run(c2)
     except Exception as e:
